@@ -280,6 +280,17 @@ func c07Valid(g *Gen, emit func(kind, src string)) {
 		}
 		emit("grammar", gr.program(d, st))
 	}
+	// one LONG successful program (the model's `Node.add` is `children ++ [c]`: the driver is quadratic in the
+	// number of children of one node; 2·10^4 statements take ~3 s, 10^5 would take minutes - declared limit)
+	long := 20000
+	if g.Thorough() {
+		long = 40000
+	}
+	var lsb strings.Builder
+	for i := 0; i < long; i++ {
+		lsb.WriteString([]string{"a := 1\n", "f(x) ; ", "if a { b }\n", "x := [1, 2]\n"}[i%4])
+	}
+	emit("long", lsb.String())
 	// nesting to depth ~50 of each nesting construct, around a small program
 	for depth := 10; depth <= 50; depth += 10 {
 		for _, w := range [][2]string{{"( ", " )"}, {"[ ", " ]"}, {"if a { ", " }"}, {"for x in y { ", " }"}, {"try { ", " } finally { }"},
